@@ -9,7 +9,13 @@ import (
 // (positions included), calls in between do not change an earlier result, and
 // no call writes to package-level state (always-on global snapshot assertion of
 // the executor; verifGlobalsUnchanged makes it an explicit obligation here).
-var verifC18Others = []string{"SELECT 1", "SELECT (1", "a + b", "CREATE TABLE t (a INT64) PRIMARY KEY (a)", "'unclosed", ""}
+var verifC18Others = []string{"SELECT 1", "SELECT (1", "a + b", "CREATE TABLE t (a INT64) PRIMARY KEY (a)", "'unclosed", "", "SELECT '\\u00e9' AS `c\\U0001F600`"}
+
+// literals with escapes: every escape kind is decoded at least once on some path
+func verifHarness_C18_lit(k, entry int) {
+	x := "SELECT '" + verifBytes(k) + "\\u00e9\\x41\\101\\n', b'\\xff' AS `i\\U0001F600`"
+	verifC18xy(x, entry, "SELECT \"\\u3042\"", verifEQuery)
+}
 
 func verifHarness_C18(n, entry, entry2 int) {
 	x := verifInput(n, 0)
@@ -102,6 +108,7 @@ func verifC18xy(x string, entry int, y string, entry2 int) {
 			verifFail("C18/results-share-nodes", "")
 		}
 	}
-	verifAssert(verifGlobalsUnchanged(), "C18/package-level-state-written")
+	// package-level state must be unchanged: asserted by the executor after every
+	// path (label global-state-modified, the discriminator names the variable)
 	verifReach("C18/ok")
 }
